@@ -600,3 +600,91 @@ def stale_output(ctx):
     directory was absent, a plain file, or a directory holding stale pages and directories of another project"""
     from fv.props import c19
     c19.writeout_obligation(ctx, "stale")
+
+
+
+# ---------------------------------------------------------------------------------------
+# O5: the static page tree (and so the navigation of every page and the order of the search index) does not depend on the order
+# in which the file system enumerates the page directory
+# ---------------------------------------------------------------------------------------
+def replay_page_order(w):
+    from fv.props import c17
+    import ford.pagetree as pt
+    import tempfile
+    # natively: the real get_page_tree on a real directory, with os.listdir of ford.pagetree answering in two different orders
+    res = {}
+    real_listdir = os.listdir
+    for order in ("ascending", w["order"]):
+        def listdir(p, order=order):
+            names = sorted(real_listdir(p))
+            if order == "descending":
+                names.reverse()
+            elif order == "rotated":
+                names = names[len(names) // 2:] + names[:len(names) // 2]
+            return names
+        shim = type("os_shim", (), {"listdir": staticmethod(listdir), "path": os.path, "PathLike": os.PathLike, "walk": os.walk, "sep": os.sep})
+        old = pt.os
+        pt.os = shim
+        try:
+            bad, detail = c17.replay_tree({"choices": w["choices"]})
+            res[order] = detail.get("ford_tree")
+        finally:
+            pt.os = old
+    return res["ascending"] != res[w["order"]], {"choices": w["choices"], "page tree with ascending enumeration": res["ascending"],
+                                                 "page tree with " + w["order"] + " enumeration": res[w["order"]]}
+
+
+@obligation("C12", "O5.page-tree-enumeration-order", engine="SX(CV)+virtual file system", timeout=1800)
+def page_tree_order(ctx):
+    """the symbolic page directory of C17 (titled/untitled pages, ordered_subpage lists that name some, all or none of the entries) listed by
+    the stubbed OS in ascending, descending or rotated order: get_page_tree builds the same tree (pages, order, files, hierarchy)"""
+    import ford.pagetree as pt
+    from fv.props import c17
+
+    ctx.encode_fn(pt.get_page_tree)
+    ctx.stubs.append("as C17 O1: in-memory page directory; os.listdir answers in the order chosen by the solver (ascending / descending / rotated)")
+    ctx.bounds.update({"enumeration orders": ["ascending", "descending", "rotated"]})
+
+    def h(E):
+        ch, entries = c17._tree(E, False)
+        order = CV.choice(E, "order", ["descending", "rotated"]).concretize()
+        E.e.snapshot = lambda m: {"choices": [choice.value_in_model(m, x) for x in ch], "order": order}
+        res = []
+        for o in ("ascending", order):
+            c17.LISTDIR_ORDER[0] = o
+            try:
+                res.append(c17._run(entries, []))
+            except ValueError:
+                res.append("ERROR")
+            finally:
+                c17.LISTDIR_ORDER[0] = "descending"
+        E.reachable("both orders")
+        same = (res[0] == res[1]) if not (isinstance(res[0], list) and isinstance(res[1], list)) else None
+        if same is None:
+            if len(res[0]) != len(res[1]):
+                E.require(False, "the number of pages depends on the order in which the page directory is enumerated")
+                return
+            for a, b in zip(res[0], res[1]):
+                E.require(choice.apply(lambda *xs: xs[:len(xs) // 2] == xs[len(xs) // 2:], *(list(_flat(a)) + list(_flat(b)))),
+                          "the page tree depends on the order in which the page directory is enumerated")
+        else:
+            E.require(same, "get_page_tree fails or not depending on the enumeration order")
+
+    E = sym.Engine(ctx, max_paths=50000, incremental=True)
+    found = E.explore(h)
+    seen = set()
+    for (label, m, pc), snap in zip(found, E.snapshots):
+        if label in seen or not snap:
+            continue
+        seen.add(label)
+        ctx.report(label, snap, replay_page_order)
+    if E.reached.get("both orders"):
+        ctx.twins += 1
+    else:
+        ctx.inconclusive.append("vacuity: page tree never built")
+    ctx.sample({"paths": E.paths})
+
+
+def _flat(rec):
+    path, title, files, hier = rec
+    return [path, title, tuple(sorted(str(f) for f in files)), tuple(hier)]
